@@ -269,10 +269,12 @@ def judge_identity(job):
                                  any(e[1] == k[1] for e in enclosing) for k in invented))
                 # F-C20-c: a key reference of a constraint declared on an ENCLOSING element is resolved against
                 # the keys inside the selection only (and counted per selection); likewise a duplicate whose first
-                # occurrence lies outside the selection goes unnoticed
+                # occurrence lies outside the selection goes unnoticed (or is reported at another occurrence)
                 partial_scope = (level == "outer" and
                                  all("duplicated value" in k[1] for k in missing) and
-                                 all(k[0] == () and "not found for Xsd" in k[1] for k in invented))
+                                 all((k[0] == () and "not found for Xsd" in k[1]) or
+                                     ("duplicated value" in k[1] and any(k[0][:len(r)] == r for r in roots))
+                                     for k in invented))
                 if partial_scope and not relocated:
                     relocated = "c"
                 out.append((rec, ver, xml, f"iter_errors(path={path!r}) = {perr}; whole-document errors in the "
